@@ -240,10 +240,17 @@ func (r *Results) Stats() QueryStats {
 // Close (nil if none). A closed Results is not reusable.
 func (r *Results) Close() error {
 	r.closeOnce.Do(func() {
+		// A Query context that was already canceled when Close was called is a
+		// terminal error, not a deliberate early stop: Close must not turn a
+		// canceled query into one that looks cleanly closed.
+		canceled := r.callerCtx.Err()
 		r.cancel()
 		<-r.done
 
 		err := r.joinedErrs()
+		if canceled != nil {
+			err = fmt.Errorf("query canceled: %w", canceled)
+		}
 		r.mu.Lock()
 		if !r.finalized {
 			r.finalized = true
